@@ -67,7 +67,9 @@ TAG_CH = set("ABCDEFGHIJKLMNOPQRSTUVWXYZabcdefghijklmnopqrstuvwxyz0123456789-;/?
 SCALAR_TEXTS = ["", "a", "1", "2.5", "true", "~", "2001-01-01", "x y", "k", "v", "0x1F", "[1]", "os.system", "1+2j", "abc", "app", "app3", "app-key", "appd",
                 # scalars at the edge of what the core converters can evaluate (only YAML errors may escape)
                 "1" + ":00" * 180 + ".5", "-9" + ":59" * 176 + ".", "1" + ":59" * 300, "1.0e+400", "0x" + "f" * 300, "2001-02-30", "9999-12-31 23:59:59.999999 -23:59",
-                "0001-01-01 00:00:00 +23:59", "0b_", "-0x_", "1__", "=", "<<"]
+                "0001-01-01 00:00:00 +23:59", "0b_", "-0x_", "1__"]
+# ('=' and '<<' are not scalar texts here: as plain keys they ARE the value / merge keys, whose structurally consumed nodes the
+# position classifier only knows through the dedicated 'eq' / 'merge' node kinds)
 
 
 def uri_escape(s):
